@@ -40,8 +40,8 @@ def warm():
 
 # ============================================================================= environments
 def draw_env(rng, tool, force_stdin=False):
-    ins = ["path", "fifo"] + (["dash", "default", "redir", "redir_off"] if tool in STDIN_OK else [])
-    outs = ["path"] + (["dash", "default"] if tool in STDOUT_OK else [])
+    ins = ["path", "fifo", "devstdin"] + (["dash", "default", "redir", "redir_off"] if tool in STDIN_OK else [])
+    outs = ["path"] + (["dash", "default", "devstdout"] if tool in STDOUT_OK else [])
     for _ in range(50):
         if force_stdin and tool in STDIN_OK:
             ik = rng.choice(("dash", "default"))
@@ -609,6 +609,8 @@ def real_cli(tool, opts, data, env, tmpdir):
         stdin = data
         if env.in_kind == "dash":
             pos.append("-")
+        elif env.in_kind == "devstdin":
+            pos.append("/dev/stdin")
     if env.out_kind == "path":
         pos.append(outp if so.startswith("/") else so)
         if env.out_pre and not env.inplace:
@@ -617,6 +619,8 @@ def real_cli(tool, opts, data, env, tmpdir):
                 f.write(_r.Random(env.out_seed).randbytes(env.out_pre))
     elif env.out_kind == "dash":
         pos.append("-")
+    elif env.out_kind == "devstdout":
+        pos.append("/dev/stdout")
     argv = pos + argv if env.late_opts and pos else argv + pos
     from .decsim import env_vars
     envv = dict(os.environ, PYTHONPATH=REPO, PYTHONDONTWRITEBYTECODE="1")
@@ -682,6 +686,9 @@ def fidelity_chunk(arg):
                 run = simulate(case.tool, case.opts, data, env, boundaries=case.offsets())
             if run.cls in ("hang", "hang_suspect"):
                 continue                      # never wait for a real process that will not end
+            if env.in_kind == "devstdin" or env.out_kind == "devstdout":
+                continue                      # real runs only ever name files under the scratch directory
+                                              # (maxtoppm REMOVES its output name on failure)
             ok, out, rc = real_cli(case.tool, case.opts, data, env, td)
             n += 1
             same = (ok == run.success)
